@@ -291,4 +291,74 @@ def mock : Iface Mock where
   registered s := s
   removed s _ r := if r = .demobilized ∧ s.keepOnDemobilize = true then s else { s with complete := false }
 
+/-! ### the system side (ntpd/src/daemon/system.rs): from a source task's message to the spawner
+
+`SystemTask::handle_source_update` removes the source that sent the message and tells the spawner that
+created it why: `MustDemobilize` → `Demobilized`, `NetworkIssue` → `NetworkIssue`, `Unreachable` →
+`Unreachable` — whatever else is going on in the system (other sources, this being the last one). -/
+
+/-- `MsgForSystem` -/
+inductive SysMsg where
+  | mustDemobilize
+  | networkIssue
+  | unreachable
+deriving DecidableEq, Repr
+
+/-- the reason `handle_source_{demobilize, network_issue, unreachable}` put into `SystemEvent::source_removed` -/
+def reasonOf : SysMsg → Reason
+  | .mustDemobilize => .demobilized
+  | .networkIssue => .networkIssue
+  | .unreachable => .unreachable
+
+/-- the spawners of the `c36_system` stream (always able to resolve / refill) -/
+inductive SpKind where
+  | std
+  | pool (count : Nat)
+deriving DecidableEq, Repr
+
+structure SysSrc where
+  id : Nat
+  owner : Nat
+deriving DecidableEq, Repr
+
+/-- system bookkeeping: which source belongs to which spawner -/
+structure Sys where
+  kinds : List SpKind
+  live : List SysSrc
+  nextId : Nat
+deriving DecidableEq, Repr
+
+/-- sources a spawner creates once it has been told that one of its sources was removed for reason `r`
+    (standard: `Std.removed` then the loop calls `try_spawn` iff incomplete; pool: always refills) -/
+def respawns : SpKind → Reason → Nat
+  | .std, r => if (Std.removed ⟨none, true⟩ r).isComplete then 0 else 1
+  | .pool _, _ => 1
+
+def initialSpawns : SpKind → Nat
+  | .std => 1
+  | .pool c => c
+
+def addSources (s : Sys) (owner : Nat) : Nat → Sys
+  | 0 => s
+  | n + 1 => addSources { s with live := s.live ++ [⟨s.nextId, owner⟩], nextId := s.nextId + 1 } owner n
+
+/-- all spawners make their first round, in the order they were added; returns the counts per spawner -/
+def Sys.start (kinds : List SpKind) : Sys × List Nat :=
+  let counts := kinds.map initialSpawns
+  let rec go (s : Sys) (i : Nat) : List Nat → Sys
+    | [] => s
+    | c :: cs => go (addSources s i c) (i + 1) cs
+  (go { kinds := kinds, live := [], nextId := 0 } 0 counts, counts)
+
+/-- source `src` sends `m`: the owner is told `reasonOf m` and respawns accordingly;
+    `none` = no such live source (the real system would panic: never generated) -/
+def Sys.msg (s : Sys) (m : SysMsg) (src : Nat) : Option (Sys × Nat × Reason × Nat) :=
+  match s.live.find? (·.id == src) with
+  | none => none
+  | some x =>
+    let r := reasonOf m
+    let n := match s.kinds[x.owner]? with | some k => respawns k r | none => 0
+    let s' := addSources { s with live := s.live.filter (·.id != src) } x.owner n
+    some (s', x.owner, r, n)
+
 end NtpVerif.Spawner
